@@ -7,7 +7,37 @@ import "time"
 // and, in runs whose configuration enables clock jumps, also while tasks are
 // runnable (a legal execution in which those tasks are merely slow).
 
-func Now() time.Time { return time.Unix(0, NowNanos()).UTC() }
+// Now is the simulated clock. The value handed out is remembered per task
+// (LastNow) so that a harness can learn which instant a library call used,
+// and can be overridden (SetClockOverride) while a harness recomputes a
+// reference result for that instant.
+func Now() time.Time {
+	n := NowNanos()
+	if s := cur; s != nil {
+		if s.clockOverride != 0 {
+			n = s.clockOverride
+		}
+		if s.cur != nil {
+			s.cur.lastNow = n
+		}
+	}
+	return time.Unix(0, n).UTC()
+}
+
+// LastNow is the last value Now() returned to the running task (Unix nanoseconds).
+func LastNow() int64 {
+	if cur == nil || cur.cur == nil {
+		return 0
+	}
+	return cur.cur.lastNow
+}
+
+// SetClockOverride makes Now() return the given instant (0 switches it off).
+func SetClockOverride(unixNanos int64) {
+	if cur != nil {
+		cur.clockOverride = unixNanos
+	}
+}
 
 func Since(t time.Time) time.Duration { return Now().Sub(t) }
 func Until(t time.Time) time.Duration { return t.Sub(Now()) }
